@@ -1,0 +1,8 @@
+//go:build !verif
+
+// Package verifhook provides named schedule points for external verification
+// harnesses. Without the "verif" build tag every point is a no-op.
+package verifhook
+
+// Point is a no-op without the "verif" build tag.
+func Point(name string) {}
